@@ -222,7 +222,7 @@ def pool_harnesses(tier):
 
 # ----------------------------------------------------------------------------- H3: PooledClient over simnet
 
-CLIENT_OPS = ("get", "set", "fail", "quit", "get_many", "close")
+CLIENT_OPS = ("get", "set", "fail", "quit", "get_many", "close", "badkey", "badkey_warm")
 
 
 def client_program(op, pc, net=None):
@@ -240,6 +240,17 @@ def client_program(op, pc, net=None):
                 return type(e).__name__
         if op == "quit":
             return pc.quit()
+        if op == "badkey":
+            try:
+                return pc.get("bad key")  # refused before any I/O; the pool still disposes of the client it handed out
+            except Exception as e:  # noqa
+                return type(e).__name__
+        if op == "badkey_warm":
+            pc.get("a")  # the connection exists and goes back to the pool first
+            try:
+                return pc.get_many(["a", "bad key"])
+            except Exception as e:  # noqa
+                return type(e).__name__
         if op == "close":
             if net is not None:
                 # sockets that already carried a request when close() starts: each belongs to a pooled client
@@ -443,10 +454,15 @@ def client_harnesses(tier):
             hs.append(("H3", ops_, mps, 0))
     # the same pairs once more at a higher preemption bound but line granularity (tag "L" in the idle slot)
     # (quick tier only: in the thorough tier the pairs above already run at bound 2 with instruction granularity)
-    for ops_ in [("get", "quit"), ("get", "fail"), ("set", "quit"), ("quit", "quit"), ("fail", "quit")]:
+    for ops_ in [("get", "quit"), ("get", "fail"), ("set", "quit"), ("quit", "quit"), ("fail", "quit"), ("badkey", "get"),
+                 ("badkey_warm", "set")]:
         for mps in (1, 2):
             if tier == "quick":
                 hs.append(("H3", ops_, mps, "L"))
+    # a call refused for an illegal key (the pool disposes of the client it handed out) next to an ordinary call
+    for ops_ in [("badkey", "get"), ("badkey_warm", "set")]:
+        for mps in (1, 2):
+            hs.append(("H3", ops_, mps, 0))
     # first use of a fresh PooledClient by two threads at once
     for ops_ in [("get", "set"), ("get", "fail"), ("get", "quit")]:
         for mps in (1, 2):
